@@ -37,7 +37,7 @@ EXPLANATION = ("Exhaustive sub-space (both tiers): every labelled graph up to is
                "WL-1 colours after 0,1,2,10 rounds are compared with the model and with brute force.  Everything else is seeded random / "
                "corpus sampling.  Theorems (coq/props/C11.v, all closed under the global context): C11_aut_count, C11_aut_group, "
                "C11_vf2_contract, C11_vf2_contract_items, C11_orbits_exact, C11_orbits_partition, C11_components, C11_wl_never_splits, C11_wfb_sound, "
-               "C11_dedup_sublist, C11_prune_complete, C11_prune_complete_aut, C11_prune_same_results.")
+               "C11_dedup_sublist, C11_prune_complete, C11_rep_ok, C11_prune_complete_aut, C11_prune_same_results.")
 TRUSTED_BASE = [
     "Coq 8.16.1 kernel + vm_compute (no native_compute)",
     "hand-written model coq/model/C11_Model.v tied to synkit/Graph/Matcher/{automorphism,auto_est,dedup_matches}.py and the pruning call of "
@@ -252,6 +252,7 @@ def _reactor(case, mode):
             rec["raw"], rec["out"] = raw, out
             if a and isinstance(a[0], (list, tuple)):
                 rec["n_aut"] = len(a[0])
+                rec["auts"] = [dict(x) for x in a[0]]
             return out
         return f
     try:
@@ -263,6 +264,7 @@ def _reactor(case, mode):
         raw = rec.get("raw", list(maps))
         res = dict(raw=[[[p, h] for p, h in m.items()] for m in raw], kept=_indices(raw, maps), n_aut=rec.get("n_aut", 0),
                    rc=GG.from_nx(r.rule.rc.raw))
+        res["auts"] = rec.get("auts", [])
         if mode != "front":
             its = r.its_list
             res["its"] = sorted(nx.weisfeiler_lehman_graph_hash(
@@ -286,7 +288,7 @@ def _flat(g):
 
 def _impl_prune(case):
     r = _reactor(case, "front")
-    return [r["raw"], r["kept"], r["n_aut"]]
+    return [[r["raw"], r["kept"], r["n_aut"]], True, True, not _prune_representatives(r)]
 
 
 def impl(case):
@@ -298,7 +300,7 @@ def impl(case):
     if k == "dedup":
         return [_impl_dedup(case), True, True]
     if k == "prune":
-        return [_impl_prune(case), True, True]     # + every match is defined on nodes of the rule centre
+        return _impl_prune(case)    # + rule centre well-formed, matches defined on its nodes, every raw match represented
     raise AssertionError(k)
 
 
@@ -584,6 +586,43 @@ def _oracle_prune(case):
     return fails
 
 
+def _prune_representatives(a):
+    """The statement of C11_prune_complete observed on the implementation: every symmetry handed to the de-duplicator
+    really is an automorphism of the rule centre (all node attributes but atom_map, all edge attributes - checked directly,
+    not by VF2), and every raw match is a kept match with its pattern side moved by one of them.  This is about the
+    mechanism, not the property text, so it is part of the OBSERVABLE (compared with the model's rep_ok, which is true by
+    C11_prune_complete) and of the printed distribution (also for the whole-molecule templates outside the model's
+    evaluated domain) - the oracle does not alarm on it."""
+    rc = a["rc"]
+    nodes = [n for n, _ in rc["nodes"]]
+    lab = {n: _lab_f(at) for n, at in rc["nodes"]}
+    adj = _adj(rc, _lab_e)
+    fails = []
+    for s in a.get("auts", []):
+        ok = set(s.keys()) >= set(nodes) and sorted(s[n] for n in nodes) == sorted(nodes) and all(lab[s[n]] == lab[n] for n in nodes) \
+            and all(adj[u].get(v) == adj[s[u]].get(s[v]) for u in nodes for v in nodes)
+        if not ok:
+            fails.append(dict(clause="rule-aut-sound", detail="a map used for pruning is not an automorphism of the rule centre: %r" % (sorted(s.items()),)))
+            return fails
+    raw = [[tuple(ph) for ph in m] for m in a["raw"]]
+    images = set()
+    for i in a["kept"]:
+        if not (0 <= i < len(raw)):
+            continue
+        images.add(frozenset(raw[i]))
+        for s in a.get("auts", []):
+            try:
+                images.add(frozenset((s[p], h) for p, h in raw[i]))
+            except KeyError:
+                pass
+    for k, m in enumerate(raw):
+        if frozenset(m) not in images:
+            fails.append(dict(clause="prune-complete", detail="raw match #%d %r differs from every kept match by more than a rule automorphism "
+                                                              "(%d kept, %d symmetries)" % (k, sorted(m), len(a["kept"]), len(a.get("auts", [])))))
+            break
+    return fails
+
+
 def oracle(case):
     k = case["kind"]
     if k == "aut":
@@ -663,7 +702,7 @@ def nontrivial(case, obs):
 
 def distribution(cases, obss):
     d = dict(aut_nodes={}, aut_group_order={}, aut_components={}, dedup_list_len={}, dedup_dropped={}, dedup_errors=0,
-             prune_raw={}, prune_kept_fraction={}, prune_rule_aut={})
+             prune_raw={}, prune_kept_fraction={}, prune_rule_aut={}, prune_every_raw_match_represented={})
 
     def bump(t, k):
         t[str(k)] = t.get(str(k), 0) + 1
@@ -676,7 +715,7 @@ def distribution(cases, obss):
     for c, o in zip(cases, obss):
         if not isinstance(o, list) or not o or o[0] == "EXC":
             continue
-        o = o[0]
+        full, o = o, o[0]
         if c["kind"] == "aut":
             bump(d["aut_nodes"], len(c["g"]["nodes"]))
             bump(d["aut_group_order"], bucket(o[0]))
@@ -689,6 +728,7 @@ def distribution(cases, obss):
                 elif len(r[1]) < len(c["ms"]):
                     bump(d["dedup_dropped"], "cfg%d" % ci)
         elif c["kind"] == "prune":
+            bump(d["prune_every_raw_match_represented"], bool(full[3]) if len(full) > 3 else "n/a")
             bump(d["prune_raw"], bucket(len(o[0])))
             bump(d["prune_rule_aut"], bucket(o[2]))
             if len(o[0]) > 1:
